@@ -64,6 +64,7 @@ __attribute__((used, visibility("default"))) const char* __lsan_default_options(
 
 int sim_dev_exec(const std::string& text, bool dump);
 int sim_dev_genprog(uint64_t seed, int count);
+int sim_dev_execseq(int n, char** files);
 int sim_dev_find(uint64_t seed, int count, const std::string& want);
 
 static double now_s() {
@@ -317,6 +318,7 @@ int main(int argc, char** argv) {
   if (cmd == "replay") { if (argc < 3) usage(); return cmd_replay(argv[2]); }
   if (cmd == "genprog") { return sim_dev_genprog(argc > 2 ? strtoull(argv[2], nullptr, 10) : 1, argc > 3 ? atoi(argv[3]) : 1); }
   if (cmd == "genfind") { return sim_dev_find(strtoull(argv[2], nullptr, 10), atoi(argv[3]), argv[4]); }
+  if (cmd == "execseq") { return sim_dev_execseq(argc - 2, argv + 2); }
   if (cmd == "exec") { if (argc < 3) usage(); return sim_dev_exec(read_file(argv[2]), argc > 3); }
   if (argc < 3) usage();
   Opts o; o.prop = argv[2]; long genrun = 0;
